@@ -203,7 +203,15 @@ def r3(ctx, R):
             if norm(kw(c, k) or ast.Constant(0)) != v:
                 R.bad(oe, c, "instance created with %s=%s, expected %s" % (k, norm(kw(c, k) or ast.Constant(None)), v),
                       stmt="ItemSpaceImpl %s" % k)
-    bvals = sorted(norm(v) for v in assigned_value(oe, "base"))
+    def _expand(name, seen=()):
+        out = []
+        for v in assigned_value(oe, name):
+            if isinstance(v, ast.Name) and v.id not in seen and assigned_value(oe, v.id):
+                out.extend(_expand(v.id, seen + (name,)))       # a local chosen per branch (or an inlined helper's result)
+            else:
+                out.append(norm(v))
+        return out
+    bvals = sorted(_expand("base"))
     R.inst("on_eval_formula: base is the own base, or the static base of the space named by the formula")
     own = "self._dynbase if self.is_dynamic() else self"
     if own not in bvals or "bs._impl" not in bvals or "bs._impl._dynbase" not in bvals:
@@ -233,7 +241,7 @@ def r3(ctx, R):
     R.inst("DynamicSpaceImpl.__init__: BaseSpaceImpl.__init__(..., base.formula, refs, arguments, base.doc) then _init_cells()")
     bi = [c for c in q.calls(di, name="__init__") if call_recv(c) == "BaseSpaceImpl"]
     ic = q.calls(di, name="_init_cells", recv="self")
-    if not bi or not ic or not q.dominated(di, bi, ic[0]) or "base.formula" not in [norm(a) for a in bi[0].args]:
+    if not bi or not ic or not q.dominated(di, bi, ic[0]) or "base.formula" not in [norm(a) for a in bi[0].args] + [norm(k.value) for k in bi[0].keywords if k.arg == "formula"]:
         R.bad(di, di.node, "a dynamic space is not built from its base's formula and cells", stmt="DynamicSpaceImpl.__init__")
     icf = ctx.func("DynamicSpaceImpl._init_cells")
     R.inst("_init_cells: one DynamicCellsImpl per cells of the base")
